@@ -159,8 +159,8 @@ pub fn replay<Z9: crate::src::Src>(s: &mut Z9, out: &mut Vec<(String, String, St
             if tr not in want and tr != "inherent":
                 log.append("impl %s not included (not under contract here)" % tr)
                 continue
-            if tr == "inherent" and "Default" not in focus_traits:
-                continue
+            if tr == "inherent" and ("Default" not in focus_traits or not any(mt.name == "new" for mt in im.methods)):
+                continue      # only the generated `new()` is under contract; a user's own inherent items are not part of the expansion
             rendered = emit.render_impl(im, edits, drops, log)
             modr = self.reg.get(tr)
             if modr is not None and hasattr(modr, "post_render") and tr in focus_traits:
